@@ -31,6 +31,16 @@ class CompileGroup:
         self.per_crate = per_crate
         self.secs = 0.0
         self.rustc_processes = 0
+        self.libs = {}  # name -> lib.rs text: library crates items may depend on
+
+    def _lib_dep(self, name):
+        return "{ path = \"%s\" }" % os.path.join(self.root, name)
+
+    def _emit_libs(self):
+        for name, text in self.libs.items():
+            cdir = os.path.join(self.root, name)
+            write_if_changed(os.path.join(cdir, "Cargo.toml"), crate_manifest(name, {"enum-tools": dep_enum_tools()}))
+            write_if_changed(os.path.join(cdir, "src", "lib.rs"), text)
 
     # -- emission ----------------------------------------------------------------------
     def _emit_crate(self, crate: str, items: list, use_control=False, no_std=False):
@@ -40,6 +50,9 @@ class CompileGroup:
         deps = {"enum-tools": dep_enum_tools()}
         if any("monitor_core" in it.deps for it in items):
             deps["monitor_core"] = "{ path = \"%s/monitor_core\" }" % VERIF
+        for lib in self.libs:
+            if any(lib in it.deps for it in items):
+                deps[lib] = self._lib_dep(lib)
         write_if_changed(os.path.join(cdir, "Cargo.toml"), crate_manifest(crate, deps))
         keep = {"lib.rs"}
         lib = ["#![no_std]"] if no_std else []
@@ -55,7 +68,8 @@ class CompileGroup:
                 os.remove(os.path.join(src, f))
 
     def _workspace(self, crates: list):
-        emit.emit_workspace(self.root, crates)
+        emit.emit_workspace(self.root, list(self.libs) + crates)
+        self._emit_libs()
 
     def _cargo(self, crates: list, cmd="build", timeout=5400):
         os.makedirs(os.path.join(self.root, "hooklog"), exist_ok=True)
@@ -188,6 +202,9 @@ class CompileGroup:
             deps = {"enum-tools": dep_enum_tools()}
             if "monitor_core" in it.deps:
                 deps["monitor_core"] = "{ path = \"%s/monitor_core\" }" % VERIF
+            for lib in self.libs:
+                if lib in it.deps:
+                    deps[lib] = self._lib_dep(lib)
             write_if_changed(os.path.join(cdir, "Cargo.toml"), crate_manifest("one", deps))
             lib = "#![allow(dead_code, unused_imports, unused_variables, unreachable_patterns, non_camel_case_types, non_upper_case_globals)]\npub mod k%06d;\n" % it.id
             if it.meta.get("no_std"):
